@@ -10,7 +10,12 @@ MANIFEST = dict(
          "pipe_is_last_positional (function call = body on the argument values; `x | f a` = `f a x`), subst_eval (inlining), "
          "filter_split, select_frame_id, derive_nothing_id, sort_nothing_id, take_unbounded_id. Tie: each rewrite is applied at every "
          "applicable site of generated programs and both versions are compiled by the real compiler and executed on SQLite; results "
-         "must be equal (as sequences when a total sort is in effect, as bags otherwise).",
+         "must be equal (as sequences when a total sort is in effect, as bags otherwise). Every rewrite that introduces a name (let, into, "
+         "module path segments, function and parameter names, aliases, derived columns) is run under each name policy PRQL's scoping admits: "
+         "fresh, or equal to a name in play (a base table read in the same query - with the shadowed table then written default_db.t -, "
+         "another let, a column, a std function, an SQL keyword, a compiler-generated table_N / _expr_N, names that differ by module path "
+         "only); a directed stream reads the base table whose name the named prefix takes again in the continuation (self-join / append / "
+         "inline pipeline, also over a prefix from another table that provides the same column names), so that a shadowed table shows in the rows.",
     note="the resolver's function/module machinery is modelled (Model.Fn is a mirror of the argument binding only), not verified; "
          "module-path resolution (T5) has no theorem yet and is covered by the metamorphic run only.",
     technique="Lean 4 proofs of the rewrite laws on the reference semantics + metamorphic differential run through the real compiler", ref="4/C06")
@@ -37,29 +42,219 @@ def split_top_and(expr):
     return None
 
 
-def rewrites(c, rng):
-    """yield (kind, prql_text) variants of case c that PRQL defines as equivalent"""
+GEN_NAMES = ("table_0", "table_1", "_expr_0")
+
+
+def qualify(s, tables):
+    """every reference to the base tables `tables` written with its full path (needed once a declaration of the same name is in scope)"""
+    for T in tables:
+        s = re.sub(rf"(?<![\w.]){T}\b(?![.\w])", f"default_db.{T}", s)
+    return s
+
+
+def rel_names(s):
+    """base tables referenced in relgen text, in order of first occurrence"""
+    out = []
+    for T in re.findall(r"(?<![\w.])(t\d)\b(?![.\w])", s):
+        if T not in out:
+            out.append(T)
+    return out
+
+
+def assemble(decl, lets, extra, main):
+    return decl + "\n" + "".join(f"let {n} = ({t})\n" for n, t in lets) + extra + "\n".join(main) + "\n"
+
+
+def module_text(path, members):
+    """`module a { module b { let n = (t) .. } }`; members: [(name, text)] (text already a complete right-hand side)"""
+    head = "".join("  " * i + f"module {m} {{\n" for i, m in enumerate(path))
+    tail = "".join("  " * i + "}\n" for i in reversed(range(len(path))))
+    return head + "".join("  " * len(path) + f"let {n} = {t}\n" for n, t in members) + tail
+
+
+def prefix_variants(c, decl, ulets, pre, post, rng, full, keep_alias=None):
+    """[(kind, policy, program)]: the prefix `pre` of the main pipeline named by `let` / `into` / a module member and the rest continued
+    from that name, under every NAME POLICY that PRQL's scoping admits: the introduced name is fresh, or equal to a name already in play
+    (a base table read later / earlier in the same query, an unused base table, another let, a column, a std function, an SQL keyword,
+    a name the compiler generates); a declaration at the root that takes the name of a base table shadows it, so that table is
+    then written `default_db.t`; a module member never shadows anything outside its module. `from m.x` names the relation `x`:
+    where that would collide with a column or function referenced by bare name, an explicit alias is given. keep_alias: the base
+    program reads the prefix inline as `from <keep_alias> = (pre)` and every variant continues `from <keep_alias> = <name>`."""
+    pre_s = " | ".join(pre)
+    lets_s = " ".join(t for _, t in ulets)
+    t_post = rel_names(" ".join(post))
+    t_pre = [t for t in rel_names(pre_s + " " + lets_s) if t not in t_post]
+    t_unused = [n for n, _ in c.schema.tables if n not in t_post and n not in t_pre]
+    qual_refs = re.search(r"\bt\d\.", " ".join([pre_s, lets_s] + post)) is not None
+    cols = [col.name for col in c.frames[len(pre) - 1]]
+
+    ka = f"{keep_alias} = " if keep_alias else ""
+
+    def root(N, how, qual=()):
+        L = [(n, qualify(t, qual)) for n, t in ulets]
+        q = [qualify(l, qual) for l in post]
+        if how == "let":
+            return assemble(decl, L, f"let {N} = ({qualify(pre_s, qual)})\n", [f"from {ka}{N}"] + q)
+        return assemble(decl, L, "\n".join(qualify(l, qual) for l in pre) + f"\ninto {N}\n\n", [f"from {ka}{N}"] + q)
+
+    def mod(path, N, alias=None, qual=(), qual_in=()):
+        # qual: tables shadowed at the root (by the module's own name); qual_in: tables shadowed inside the module only
+        L = [(n, qualify(t, qual)) for n, t in ulets]
+        frm = f"from {ka or (alias + ' = ' if alias else '')}{'.'.join(path)}.{N}"
+        return assemble(decl, L, module_text(path, [(N, "(" + qualify(pre_s, tuple(qual) + tuple(qual_in)) + ")")]),
+                        [frm] + [qualify(l, qual) for l in post])
+
+    out = [("let-prefix", "fresh", root("pfx", "let")), ("into", "fresh", root("pfx", "into"))]
+    adv = [("let-prefix", "module-member=fresh", lambda: mod(["mm"], "pfx")),
+           ("let-prefix", "module=member-name", lambda: mod(["pfx"], "pfx")),
+           ("let-prefix", "nested-module-member=fresh", lambda: mod(["ma", "mb"], "pfx"))]
+    if not qual_refs:
+        for tag, ts in (("table-read-later", t_post[:2]), ("table-read-earlier", t_pre[:1])):
+            for T in ts:
+                adv += [("let-prefix", f"root={tag}", lambda T=T: root(T, "let", (T,))),
+                        ("into", f"root={tag}", lambda T=T: root(T, "into", (T,))),
+                        ("let-prefix", f"module-member={tag}", lambda T=T: mod(["mm"], T, qual_in=(T,))),
+                        ("let-prefix", f"module-member={tag},aliased", lambda T=T: mod(["mm"], T, alias="pf", qual_in=(T,))),
+                        ("let-prefix", f"nested-module-member={tag}", lambda T=T: mod(["ma", "mb"], T, qual_in=(T,))),
+                        ("let-prefix", f"module-name={tag}", lambda T=T: mod([T], "pfx", qual=(T,))),
+                        ("let-prefix", f"module-name=member-name={tag}", lambda T=T: mod([T], T, qual=(T,)))]
+        for T in t_unused[:1]:
+            adv += [("let-prefix", "root=table-unused", lambda T=T: root(T, "let")),
+                    ("into", "root=table-unused", lambda T=T: root(T, "into")),
+                    ("let-prefix", "module-member=table-unused", lambda T=T: mod(["mm"], T))]
+    for g in GEN_NAMES:
+        adv += [("let-prefix", "root=generated-name", lambda g=g: root(g, "let")),
+                ("into", "root=generated-name", lambda g=g: root(g, "into")),
+                ("let-prefix", "module-member=generated-name", lambda g=g: mod(["mm"], g)),
+                ("let-prefix", "module-name=generated-name", lambda g=g: mod([g], g))]
+    adv += [("let-prefix", "root=sql-keyword", lambda: root("order", "let")),
+            ("into", "root=sql-keyword", lambda: root("group_by", "into")),
+            ("let-prefix", "module-member=sql-keyword", lambda: mod(["mm"], "where", alias="pf"))]
+    for n, _ in ulets:
+        if not re.search(rf"\b{n}\b", pre_s):
+            adv.append(("let-prefix", "module-member=other-let", lambda n=n: mod(["mm"], n)))
+    if cols:
+        adv.append(("let-prefix", "module-member=column,aliased", lambda: mod(["mm"], cols[0], alias="pf")))
+        adv.append(("let-prefix", "module-member=column,aliased", lambda: mod(["mm"], cols[-1], alias="pf")))
+    for f in ("sum", "select", "count"):
+        adv.append(("let-prefix", "module-member=std-name,aliased", lambda f=f: mod(["mm"], f, alias="pf")))
+    if not full and len(adv) > 6:
+        adv = rng.sample(adv, 6)
+    return out + [(k, pol, mk()) for k, pol, mk in adv]
+
+
+def let_variants(c, decl, rng):
+    """[(kind, policy, program)]: the let-tables of the program moved into modules / renamed (T5), under every name policy"""
+    used = c.used_lets()
+    if not used:
+        return []
+    ul = [(n, t) for i, (n, t, _) in enumerate(c.lets) if i in used]
+    whole = "\n".join(c.text)
+    alltext = whole + " " + " ".join(t for _, t in ul)
+    if any(re.search(rf"\b{n}\.", alltext) for n, _ in ul):
+        return []       # columns qualified by the let's name: the relation would have to keep its name
+    qual_refs = re.search(r"\bt\d\.", alltext) is not None
+    tabs = rel_names(whole) + [t for t in rel_names(alltext) if t not in rel_names(whole)]
+    tabs += [n for n, _ in c.schema.tables if n not in tabs]
+
+    def build(place, qual=(), qual_mod=()):
+        """place: {let name: (module path or None, new name)}; qual: tables shadowed at the root; qual_mod: inside modules"""
+        def ren(s):
+            for n, (path, nn) in place.items():
+                s = re.sub(rf"\b{n}\b", "\0".join((path or []) + [nn]), s)
+            return s.replace("\0", ".")
+        rootlets, mods = [], {}
+        for n, t in ul:
+            path, nn = place[n]
+            if path is None:
+                rootlets.append((nn, ren(qualify(t, qual))))
+            else:
+                mods.setdefault(tuple(path), []).append((nn, "(" + ren(qualify(t, tuple(qual) + tuple(qual_mod))) + ")"))
+        extra = "".join(module_text(list(path), members) for path, members in mods.items())
+        return assemble(decl, rootlets, extra, [ren(qualify(whole, qual))])
+
+    out = [("module-path", "fresh", lambda: build({n: (["mm"], n) for n, _ in ul})),
+           ("module-path", "nested", lambda: build({n: (["ma", "mb"], n) for n, _ in ul})),
+           ("module-path", "one-module-per-let,same-member-name", lambda: build({n: ([f"m{i}"], "v") for i, (n, _) in enumerate(ul)})),
+           ("module-path", "module-name=member-name", lambda: build({n: ([f"v{i}"], f"v{i}") for i, (n, _) in enumerate(ul)})),
+           ("module-path", "member=generated-name", lambda: build({n: (["mm"], f"table_{i}") for i, (n, _) in enumerate(ul)})),
+           ("module-path", "member=sql-keyword", lambda: build({n: (["mm"], ["order", "union"][i % 2] + "_" * (i // 2)) for i, (n, _) in enumerate(ul)})),
+           ("rename-let", "generated-name", lambda: build({n: (None, f"table_{len(ul) - 1 - i}") for i, (n, _) in enumerate(ul)})),
+           ("rename-let", "generated-name", lambda: build({n: (None, f"_expr_{i}") for i, (n, _) in enumerate(ul)}))]
+    if len(ul) >= 2:
+        # the last let moves to `mm.<name of the first let>`: two declarations that differ by module path only
+        (n0, _), (n1, t1) = ul[0], ul[-1]
+        if not re.search(rf"\b{n0}\b", t1):
+            out.append(("module-path", "member=root-let-name", lambda: build(dict({n: (None, n) for n, _ in ul}, **{n1: (["mm"], n0)}))))
+    if not qual_refs and len(tabs) >= len(ul):
+        names = tabs[:len(ul)]
+        out += [("module-path", "member=table-name", lambda: build({n: (["mm"], T) for (n, _), T in zip(ul, names)}, qual_mod=names)),
+                ("module-path", "member=table-name,nested", lambda: build({n: (["ma", "mb"], T) for (n, _), T in zip(ul, names)}, qual_mod=names)),
+                ("module-path", "one-module-per-let,member=same-table-name",
+                 lambda: build({n: ([f"m{i}"], names[0]) for i, (n, _) in enumerate(ul)}, qual_mod=names[:1])),
+                ("module-path", "module-name=table-name", lambda: build({n: ([names[0]], n) for n, _ in ul}, qual=names[:1])),
+                ("rename-let", "table-name", lambda: build({n: (None, T) for (n, _), T in zip(ul, names)}, qual=names))]
+        rnames = list(reversed(tabs))[:len(ul)]
+        if rnames != names:
+            out.append(("module-path", "member=table-name", lambda: build({n: (["mm"], T) for (n, _), T in zip(ul, rnames)}, qual_mod=rnames)))
+    return [(k, pol, mk()) for k, pol, mk in out]
+
+
+def fn_policies(c, whole, rng):
+    """[(policy, definitions, names)]: the function declarations used by the beta rewrites under every name policy; names maps the
+    neutral names (sub_f, add_f, add_n, id_f, mul_f = path of the module function, n = the named parameter) to the ones declared"""
+    def defs(fn, p, modname="m9"):
+        a, b, n, x = p
+        return (f"let {fn['sub_f']} = {a} {b} -> {a} - {b}\nlet {fn['add_f']} = {a} {b} -> {a} + {b}\n"
+                f"let {fn['add_n']} = {a} {n}:0 -> {a} + {n}\nlet {fn['id_f']} = {x} -> {x}\n"
+                f"module {modname} {{\n  let {fn['mul_f']} = {a} {b} -> {a} * {b}\n}}\n")
+    plain = dict(sub_f="sub_f", add_f="add_f", add_n="add_n", id_f="id_f", mul_f="mul_f")
+    out = [("fresh", FN_DEFS, dict(plain, mul_f="m9.mul_f", n="n"))]
+    used_tabs = rel_names(whole + " " + " ".join(t for _, t, _ in c.lets))
+    unused = [(n, cols) for n, cols in c.schema.tables if n not in used_tabs]
+    # all functions inside a module, named like things in play: base tables, columns, a let, std functions, generated names
+    pool = used_tabs[:2] + [col.name for col in c.frames[0][:2]] + [n for n, _, _ in c.lets[:1]] + ["sum", "select", "table_0", "_expr_0", "mm"]
+    pool = list(dict.fromkeys(pool))
+    rng.shuffle(pool)
+    fn = dict(zip(["sub_f", "add_f", "add_n", "id_f", "mul_f"], pool))
+    body = "".join(f"  let {fn[k]} = {rhs}\n" for k, rhs in [("sub_f", "a b -> a - b"), ("add_f", "a b -> a + b"), ("add_n", "a n:0 -> a + n"),
+                                                              ("id_f", "x -> x"), ("mul_f", "a b -> a * b")])
+    out.append(("functions=module-members-named-like-names-in-play", "module fns {\n" + body + "}\n",
+                dict({k: "fns." + v for k, v in fn.items()}, n="n")))
+    # parameters named like things that are NOT in scope at the call (columns of an unused table, that table, generated names);
+    # a parameter that shares its name with a column or declaration visible at the call is rejected as ambiguous by PRQL
+    ps = ([unused[0][1][0].name, unused[0][1][1].name, unused[0][0], unused[0][1][2].name] if unused else []) or ["_expr_0", "table_0", "_expr_1", "table_1"]
+    out.append(("parameters=foreign-columns" if unused else "parameters=generated-names", defs(plain, ps), dict(plain, mul_f="m9.mul_f", n=ps[2])))
+    out.append(("root-functions=generated-names,module=unused-table" if unused else "root-functions=generated-names",
+                defs(dict(sub_f="table_0", add_f="_expr_0", add_n="table_1", id_f="_expr_1", mul_f="m9"), ("a", "b", "n", "x"), unused[0][0] if unused else "m9"),
+                dict(sub_f="table_0", add_f="_expr_0", add_n="table_1", id_f="_expr_1", mul_f=(unused[0][0] if unused else "m9") + ".m9", n="n")))
+    return out
+
+
+def rewrites(c, rng, full=False):
+    """yield (kind, name policy, prql_text) variants of case c that PRQL defines as equivalent"""
     decl = c.schema.decl()
     used = c.used_lets()
-    lets = "".join(f"let {n} = ({t})\n" for i, (n, t, _) in enumerate(c.lets) if i in used)
+    ulets = [(n, t) for i, (n, t, _) in enumerate(c.lets) if i in used]
+    lets = "".join(f"let {n} = ({t})\n" for n, t in ulets)
     text = c.text
     out = []
     unique = lambda fr: len({x.name for x in fr}) == len(fr)
-    # T1 let prefix / into
+    qualifier = re.compile(r"\bt[0-9]\.|\bl[0-9]\." + "".join(rf"|\b{n}\." for n, _ in ulets))
+    # T1 let prefix / into / module member, under every name policy
     for k in range(1, len(text)):
         if not unique(c.frames[k - 1]) or any("." in col.ref for col in c.frames[k - 1]):
             continue
         pre, post = text[:k], text[k:]
-        if any(re.search(r"\bt[0-9]\.|\bl[0-9]\.", l) for l in post):
+        if any(qualifier.search(l) for l in post):
             continue
-        out.append(("let-prefix", decl + "\n" + lets + f"let pfx = ({' | '.join(pre)})\n" + "\n".join(["from pfx"] + post) + "\n"))
-        out.append(("into", decl + "\n" + lets + "\n".join(pre) + "\ninto pfx\n\n" + "\n".join(["from pfx"] + post) + "\n"))
+        out += prefix_variants(c, decl, ulets, pre, post, rng, full)
     # T3 filter split
     for i, l in enumerate(text):
         if l.startswith("filter "):
             sp = split_top_and(l[7:])
             if sp:
-                out.append(("filter-split", decl + "\n" + lets + "\n".join(text[:i] + [f"filter {sp[0]}", f"filter {sp[1]}"] + text[i + 1:]) + "\n"))
+                out.append(("filter-split", "-", decl + "\n" + lets + "\n".join(text[:i] + [f"filter {sp[0]}", f"filter {sp[1]}"] + text[i + 1:]) + "\n"))
     # T4 identities
     for i in range(1, len(text) + 1):
         fr = c.frames[i - 1]
@@ -67,34 +262,137 @@ def rewrites(c, rng):
         if unique(fr):
             ins.append(("id-select-frame", "select {" + ", ".join(col.ref for col in fr) + "}"))
         kind, line = rng.choice(ins)
-        out.append((kind, decl + "\n" + lets + "\n".join(text[:i] + [line] + text[i:]) + "\n"))
-    # T2 beta: positional / piped / named-with-default / identity function / function in a module (T5)
+        out.append((kind, "-", decl + "\n" + lets + "\n".join(text[:i] + [line] + text[i:]) + "\n"))
+    # T6 inlining read backwards: the condition of a filter named by a derive first (the column is dropped again by a select of the
+    # frame), the new column named fresh / like names in play that are not visible as bare names at that point
+    for i, l in enumerate(text):
+        fr = c.frames[i - 1] if i else []
+        if l.startswith("filter ") and unique(fr):
+            here = " ".join(text[:i + 1])
+            tabs = [n for n, _ in c.schema.tables if not re.search(rf"\b{n}\b", here + " " + lets)]
+            cands = [("fresh", "zz", "zz"), ("generated-name", "_expr_0", "_expr_0"), ("generated-name", "_expr_1", "_expr_1"),
+                     ("generated-name", "table_0", "table_0"), ("std-name,this-qualified", "sum", "this.sum"),
+                     ("std-name,this-qualified", "select", "this.select"), ("sql-keyword", "order", "order"), ("module-name", "m9", "this.m9")]
+            cands += [("table-not-in-scope", T, T) for T in tabs[:1]]
+            for pol, N, ref in (cands if full else [cands[0], rng.choice(cands[1:])]):
+                if any(col.name == N for col in fr):
+                    continue
+                out.append(("name-condition", "column=" + pol, decl + "\n" + (FN_DEFS if pol == "module-name" else "") + lets + "\n".join(
+                    text[:i] + [f"derive {{{N} = {l[7:]}}}", f"filter {ref}", "select {" + ", ".join(col.ref for col in fr) + "}"] + text[i + 1:]) + "\n"))
+    # T4' an alias given to a source relation whose columns are only referred to by bare names
+    wholetext = " ".join(text)
+    for i, l in enumerate(text):
+        m = re.match(r"(from |join (?:side:\w+ )?)(t\d|[lp]\d)( \(.*|)$", l)
+        if not m or re.search(rf"\b{m.group(2)}\.", wholetext):
+            continue
+        others = [T for T in rel_names(wholetext + " " + lets) if T != m.group(2)]
+        cands = [("fresh", "al"), ("generated-name", "table_0"), ("generated-name", "table_1"), ("sql-keyword", "order"), ("module-name", "m9")]
+        cands += [("other-table-in-query", T) for T in others[:2] if not re.search(rf"\b{T}\.", wholetext)]
+        cands += [("table-not-in-query", n) for n, _ in c.schema.tables if n not in others and n != m.group(2)][:1]
+        cands += [("let-name", n) for n, _ in ulets if n != m.group(2) and not re.search(rf"\b{n}\.", wholetext)][:1]
+        for pol, A in (cands if full else [cands[0], rng.choice(cands[1:])]):
+            out.append(("id-alias", "alias=" + pol, decl + "\n" + (FN_DEFS if pol == "module-name" else "") + lets + "\n".join(text[:i] + [f"{m.group(1)}{A} = {m.group(2)}{m.group(3)}"] + text[i + 1:]) + "\n"))
+    # T5' a base table referred to by its full path (every reference / only the first one, so that `t` and `default_db.t` meet in one query)
+    tabs_here = rel_names(wholetext + " " + lets)
+    if tabs_here and not re.search(r"\bt\d\.", wholetext + " " + lets):
+        body = lets + "\n".join(text) + "\n"
+        out.append(("table-full-path", "every-reference", decl + "\n" + qualify(body, tabs_here)))
+        T = rng.choice(tabs_here)
+        out.append(("table-full-path", "first-reference-only", decl + "\n" + re.sub(rf"(?<![\w.]){T}\b(?![.\w])", f"default_db.{T}", body, count=1)))
+    # T2 beta: positional / piped / named-with-default / identity function / function in a module (T5), under every name policy
     whole = "\n".join(text)
-    pats = [("beta-positional", r"\(([a-z][a-z0-9]*) - ([a-z][a-z0-9]*)\)", r"(sub_f \1 \2)"),
-            ("beta-piped", r"\(([a-z][a-z0-9]*) - ([a-z][a-z0-9]*)\)", r"(\2 | sub_f \1)"),
-            ("beta-named", r"\(([a-z][a-z0-9]*) \+ ([a-z][a-z0-9]*)\)", r"(add_n n:\2 \1)"),
-            ("beta-default", r"\(([a-z][a-z0-9]*) \+ 0\)", r"(add_n \1)"),
-            ("beta-module-path", r"\(([a-z][a-z0-9]*) \* ([a-z][a-z0-9]*)\)", r"(m9.mul_f \1 \2)"),
-            ("beta-positional-add", r"\(([a-z][a-z0-9]*) \+ ([a-z][a-z0-9]*)\)", r"(add_f \1 \2)")]
-    for kind, pat, rep in pats:
-        if re.search(pat, whole):
-            out.append((kind, decl + "\n" + FN_DEFS + lets + re.sub(pat, rep, whole, count=rng.choice([1, 0])) + "\n"))
-    m = re.search(r"^(filter )(.*)$", whole, re.M)
-    if m:
-        out.append(("beta-identity-fn", decl + "\n" + FN_DEFS + lets + whole[:m.start()] + f"filter (id_f {m.group(2)})" + whole[m.end():] + "\n"))
-    # T5 moving let-tables into a module and referring to them by path
-    if used:
-        body = whole
-        mlets = ""
-        for i, (n, t, _) in enumerate(c.lets):
-            if i in used:
-                t2 = t
-                for j, (n2, _, _) in enumerate(c.lets):
-                    t2 = re.sub(rf"\b{n2}\b", f"mm.{n2}", t2)
-                mlets += f"  let {n} = ({t2})\n"
-                body = re.sub(rf"\b{n}\b", f"mm.{n}", body)
-        out.append(("module-path", decl + "\nmodule mm {\n" + mlets + "}\n" + body + "\n"))
+    V = r"([a-z][a-z0-9]*)"
+    pols = fn_policies(c, whole, rng)
+    if not full:
+        pols = pols[:1] + [rng.choice(pols[1:])]
+    for policy, defs, fn in pols:
+        pats = [("beta-positional", rf"\({V} - {V}\)", rf"({fn['sub_f']} \1 \2)"),
+                ("beta-piped", rf"\({V} - {V}\)", rf"(\2 | {fn['sub_f']} \1)"),
+                ("beta-named", rf"\({V} \+ {V}\)", rf"({fn['add_n']} {fn['n']}:\2 \1)"),
+                ("beta-default", rf"\({V} \+ 0\)", rf"({fn['add_n']} \1)"),
+                ("beta-module-path", rf"\({V} \* {V}\)", rf"({fn['mul_f']} \1 \2)"),
+                ("beta-positional-add", rf"\({V} \+ {V}\)", rf"({fn['add_f']} \1 \2)")]
+        for kind, pat, rep in pats:
+            if re.search(pat, whole):
+                out.append((kind, policy, decl + "\n" + defs + lets + re.sub(pat, rep, whole, count=rng.choice([1, 0])) + "\n"))
+        m = re.search(r"^(filter )(.*)$", whole, re.M)
+        if m:
+            out.append(("beta-identity-fn", policy, decl + "\n" + defs + lets + whole[:m.start()] + f"filter ({fn['id_f']} {m.group(2)})" + whole[m.end():] + "\n"))
+    # T5 moving let-tables into modules and referring to them by path / renaming them, under every name policy
+    lv = let_variants(c, decl, rng)
+    if not full and len(lv) > 5:
+        lv = lv[:1] + rng.sample(lv[1:], 4)
+    out += lv
     return out
+
+
+class Shadow:
+    """directed base program `from lft = (from t | P) | Q` (the inlined form of `let n = (from t | P)` .. `from lft = n | Q`) where Q reads the SAME base table t again (self-join, append, inline pipeline): a named
+    prefix that takes t's name and wrongly shadows t in the SQL would mostly still provide the columns Q reads, i.e. go unnoticed by
+    the database; only the rows tell. Quacks like relgen.Case as far as the evaluation loop needs."""
+
+    def __init__(self, schema, db, pre, post, cols):
+        self.schema, self.db, self.pre, self.post = schema, db, pre, post
+        self.text = ["from lft = (" + " | ".join(pre) + ")"] + post
+        self.frames = [[relgen.Col(n, "int") for n in cols]] * (len(pre) + len(post))
+        self.lets = []
+        self.columns = []
+
+    @property
+    def prql(self):
+        return self.schema.decl() + "\n" + "\n".join(self.text) + "\n"
+
+    @property
+    def schema_list(self):
+        return [(n, [(c.name, c.ty) for c in cols]) for n, cols in self.schema.tables]
+
+
+def shadow_cases(ndb):
+    out = []
+    for d in range(ndb):
+        rng = random.Random(6363 + d)
+        schema = relgen.Schema(rng, 3, shared_k=False)
+        db = relgen.gen_db(rng, schema, maxrows=7, empty_p=0)
+        for i in range(3):
+            j = (i + 1 + d) % 3
+            u, a, b, k, t, uj, aj, tj = f"u{i}", f"a{i}", f"b{i}", f"k{i}", f"t{i}", f"u{j}", f"a{j}", f"t{j}"
+            P = [([f"filter ({a} ?? 0) >= 1"], [u, a, b, k]),
+                 ([f"sort {{-{u}}}", "take 3"], [u, a, b, k]),
+                 ([f"select {{{u}, {a} = ({a} ?? 0) + 100, {b}, {k}}}"], [u, a, b, k]),
+                 ([f"select {{{u} = {u} + 1, {a}, {b}, {k}}}"], [u, a, b, k]),
+                 ([f"filter {u} > 2", f"select {{{u}, {a}}}"], [u, a]),
+                 ([f"group {{{k}}} (aggregate {{{u} = min {u}, {a} = sum {a}}})"], [k, u, a])]
+            # prefixes over ANOTHER table that provide t's column names: taking t's name shadows t without any binding error
+            ren = f"select {{{u} = {uj}, {a} = {aj}, {b} = b{j}, {k} = k{j}}}"
+            P = [([f"from {t}"] + pp, cc) for pp, cc in P]
+            P += [([f"from {tj}", ren], [u, a, b, k]), ([f"from {tj}", f"filter {uj} > 1", ren], [u, a, b, k]),
+                  ([f"from {tj}", f"select {{{u} = {uj}, {a} = {aj}}}", f"sort {{{u}}}", "take 4"], [u, a])]
+            sel = f"select {{lu = lft.{u}, la = lft.{a}, ru = r.{u}, ra = r.{a}}}"
+            Q = [[f"join side:left r = {t} (lft.{u} == r.{u})", sel],
+                 [f"join r = {t} (=={u})", sel],
+                 [f"join side:full r = {t} (lft.{a} == r.{a})", sel],
+                 [f"select {{{u}, {a}}}", f"append (from {t} | select {{{u}, {a}}})"],
+                 [f"join side:inner r = (from {t} | filter {u} < 6 | select {{{u}, {a}}}) (lft.{u} == r.{u})", sel],
+                 [f"join o = {tj} (lft.{u} == o.{uj})", f"join side:left r = {t} (o.{aj} == r.{a})",
+                  f"select {{lu = lft.{u}, ou = o.{uj}, ru = r.{u}, ra = r.{a}}}"],
+                 [f"select {{{u}, {a}}}", "take 5", f"filter {u} != 4", f"join side:left r = {t} (=={u})", f"select {{{u} = this.lft.{u}, ra = r.{a}}}"],
+                 [f"join side:left r = {t} (lft.{u} == r.{u})", sel, "group {lu} (aggregate {n = count this, s = sum ra})"]]
+            for pre, cols in P:
+                for post in Q:
+                    out.append(Shadow(schema, db, pre, post, cols))
+    return out
+
+
+def classify_name_clash(c, sql, err):
+    """known finding `base-table-renamed-for-cte-of-same-name`: SQLite misses a table_N that no CTE defines, while a CTE carries the name
+    of a base table of the schema and that base table is nowhere read under its own name outside that CTE's use"""
+    m = re.fullmatch(r"OperationalError: no such table: (table_\d+)", err or "")
+    if not m or re.search(rf"\b{m.group(1)} AS (?:MATERIALIZED )?\(", sql):
+        return None
+    ctes = re.findall(r"(?:WITH|,)\s+(\w+) AS (?:MATERIALIZED )?\(", sql)
+    if any(n in ctes for n, _ in c.schema.tables) and re.search(rf"(?:FROM|JOIN)\s+{m.group(1)} AS \w+", sql):
+        return "base-table-renamed-for-cte-of-same-name"
+    return None
 
 
 def run(ctx):
@@ -103,7 +401,10 @@ def run(ctx):
                            "pipe_is_last_positional", "subst_eval", "filter_split", "select_frame_id",
                            "derive_nothing_id", "sort_nothing_id", "take_unbounded_id"])
     ctx.rule = ("base programs from the relational generator (safe profile) x every applicable rewrite site and kind (let-prefix, into, "
-                "filter split, identity transforms, function beta: positional/piped/named/default/identity, module path); both versions "
+                "filter split, identity transforms, source aliases, naming a filter condition, function beta: positional/piped/named/default/identity, "
+                "let-tables moved into modules / renamed) x NAME POLICY of every name the rewrite introduces (fresh, or equal to a name in play: "
+                "base table read in the same query, other let, column, std function, SQL keyword, compiler-generated name, module path "
+                "segments) wherever PRQL's scoping keeps the program valid; both versions "
                 "compiled with the real compiler for sqlite and executed on the same database; a case is (base program, rewrite kind, site); "
                 "non-trivial = both compile and the base returns rows")
     if not (br.cargo_ok and br.drv_ok):
@@ -113,6 +414,17 @@ def run(ctx):
     nbase = (300, 150) if quick else (2000, 2000)
     sysbase = relgen.systematic_cases(2 if quick else 3, SAFE, seed=66, kinds=["select", "derive", "filter", "sort", "take", "aggregate", "group_agg", "group_take", "join", "window"])
     sysbase += relgen.inherited_order_cases(SAFE, variants=2 if quick else 4)
+    # programs with let-tables (for the module / renaming rewrites): prefix named by a let at every cut, plus generated programs with
+    # one or two let-tables whose main pipeline joins / appends base tables
+    letrng = random.Random(6262)
+    sysbase += relgen.systematic_let_cases(2, SAFE)
+    nlb = 0
+    for _ in range(400 if quick else 1600):
+        c = relgen.make_case(letrng, nlets=letrng.choice([1, 2]), max_tr=3, kinds=["join", "join", "append", "filter", "select", "derive", "sort", "take",
+                                                                                    "group_agg"], **SAFE)
+        if c.used_lets() and nlb < (120 if quick else 500):
+            sysbase.append(c)
+            nlb += 1
     ctx.coverage_extra["systematic_base_programs"] = len(sysbase)
     for det, (rng, n) in zip((True, True, False), [(random.Random(6060), 0)] + list(zip(rngs, nbase))):
         kinds = ["select", "derive", "filter", "sort", "take", "aggregate", "group_agg", "group_take", "join", "append", "derive",
@@ -124,12 +436,29 @@ def run(ctx):
             if r["status"] != "ok":
                 ctx.count("base:" + r["status"])
                 continue
-            for kind, prql in rewrites(c, rng):
+            for kind, policy, prql in rewrites(c, rng, full=(n == 0)):
                 reqs.append({"op": "compile", "prql": prql, "target": "sql.sqlite"})
-                meta.append((c, r, kind, prql))
+                meta.append((c, r, kind, policy, prql))
+        if n == 0:
+            # directed: named prefixes over a base table that the continuation reads again (bag comparison; no reference model involved)
+            sh = shadow_cases(1 if quick else 4)
+            ctx.coverage_extra["directed_same_table_read_again_programs"] = len(sh)
+            for c, a in zip(sh, vh_batch([{"op": "compile", "prql": c.prql, "target": "sql.sqlite"} for c in sh])):
+                names, rows, err = relgen.run_sqlite(c.schema_list, c.db, a["sql"]) if "sql" in a else (None, None, "not compiled")
+                if err:
+                    ctx.count("directed-base:" + ("sqlite-error" if "sql" in a else "rejected"))
+                    continue
+                c.columns = names
+                r = {"status": "ok", "rows": rows, "names": names, "mode": "bag", "sql": a["sql"]}
+                for kind, policy, prql in prefix_variants(c, c.schema.decl(), [], c.pre, c.post, rng, True, keep_alias="lft"):
+                    reqs.append({"op": "compile", "prql": prql, "target": "sql.sqlite"})
+                    meta.append((c, r, kind, policy, prql))
         ans = vh_batch(reqs)
-        for (c, r, kind, prql), a in zip(meta, ans):
+        for (c, r, kind, policy, prql), a in zip(meta, ans):
             ctx.count("rewrite:" + kind)
+            if policy != "-":
+                ctx.count("names:" + policy)
+            kind_p = kind if policy in ("-", "fresh") else f"{kind} [{policy}]"
             if "sql" not in a:
                 reason = (a.get("errors") or [{}])[0].get("reason", str(a)[:120]) if "panic" not in a else "panic: " + a["panic"]
                 # the rewritten program must be accepted just like the base program
@@ -137,16 +466,18 @@ def run(ctx):
                 fid = None
                 if "panic" in a:
                     fid = relcheck.classify(type("X", (), {"prql": prql, "columns": c.columns})(), {"status": "panic", "detail": a["panic"], "sql": ""})
-                ctx.oracle_failure(fid, f"{kind}: the rewritten program is rejected ({reason}) although the base program compiles",
-                                   {"kind": kind, "base": c.prql, "rewritten": prql, "answer": a}, det_key=(prql,) if det else None)
+                ctx.oracle_failure(fid, f"{kind_p}: the rewritten program is rejected ({reason}) although the base program compiles",
+                                   {"kind": kind, "names": policy, "base": c.prql, "rewritten": prql, "answer": a}, det_key=(prql,) if det else None)
                 continue
             names, rows, err = relgen.run_sqlite(c.schema_list, c.db, a["sql"])
             ctx.case((prql, str(c.db)), nontrivial=bool(r.get("rows")))
             if err:
                 r2 = {"status": "sqlite-error", "detail": err, "sql": a["sql"]}
                 fid = relcheck.classify(type("X", (), {"prql": prql, "columns": c.columns})(), r2)
-                ctx.oracle_failure(fid, f"{kind}: rewritten program fails on SQLite: {err}",
-                                   {"kind": kind, "base": c.prql, "rewritten": prql, "sql": a["sql"], "db": c.db}, det_key=(prql, c.db) if det else None)
+                if fid is None:
+                    fid = classify_name_clash(c, a["sql"], err)
+                ctx.oracle_failure(fid, f"{kind_p}: rewritten program fails on SQLite: {err}",
+                                   {"kind": kind, "names": policy, "base": c.prql, "rewritten": prql, "sql": a["sql"], "db": c.db}, det_key=(prql, c.db) if det else None)
                 continue
             mode = r.get("mode")
             if mode == "ambiguous":
@@ -155,8 +486,8 @@ def run(ctx):
             if names != bnames and sorted(names) == sorted(bnames) and len(set(names)) == len(names):
                 # same columns in a different order: a difference in the result all the same
                 fid = "group-column-order-lineage-dependent" if re.search(r"\bgroup\b", prql) else None
-                ctx.oracle_failure(fid, f"{kind}: the result columns come in a different order ({bnames} vs {names})",
-                                   {"kind": kind, "base": c.prql, "rewritten": prql, "base_columns": bnames, "columns": names})
+                ctx.oracle_failure(fid, f"{kind_p}: the result columns come in a different order ({bnames} vs {names})",
+                                   {"kind": kind, "names": policy, "base": c.prql, "rewritten": prql, "base_columns": bnames, "columns": names})
                 perm = [names.index(n) for n in bnames]
                 rows = [[row[i] for i in perm] for row in rows]
             same = (rows == r["rows"]) if mode == "seq" else (relgen.canon_rows(rows) == relgen.canon_rows(r["rows"]))
@@ -173,8 +504,8 @@ def run(ctx):
                 if fid is None and kind in ("let-prefix", "into") and re.search(r"OVER \((?:PARTITION BY [^()]*)?\)", a["sql"]) and \
                         re.search(r"OVER \([^()]*ORDER BY", r["sql"]) and "sort" in prql:
                     fid = "window-order-lost-across-let"
-                ctx.oracle_failure(fid, f"{kind}: result differs from the base program's",
-                                   {"kind": kind, "base": c.prql, "rewritten": prql, "base_sql": r["sql"], "sql": a["sql"], "db": c.db,
+                ctx.oracle_failure(fid, f"{kind_p}: result differs from the base program's",
+                                   {"kind": kind, "names": policy, "base": c.prql, "rewritten": prql, "base_sql": r["sql"], "sql": a["sql"], "db": c.db,
                                     "schema": c.schema_list, "base_rows": r["rows"], "rows": rows, "compared_as": mode},
                                    det_key=(prql, c.db) if det else None)
             elif len(ctx.samples) < 5 and rows:
